@@ -76,7 +76,7 @@ KNOWN_CLASSES = {
 
 PROPS = {
     "C09": {
-        "lean_modules": ["TableauVerif.Props.C09", "TableauVerif.Props.C09Doc"],
+        "lean_modules": ["TableauVerif.Props.C09", "TableauVerif.Props.C09Doc", "TableauVerif.Props.C09Incell"],
         "oracles": ["c09.doc", "c09.known"],
         "streams": [
             ("e2e.C09.documents", 360, 15000, 8),
@@ -181,7 +181,7 @@ PROPS = {
         ],
     },
     "C06": {
-        "lean_modules": ["TableauVerif.Props.C06"],
+        "lean_modules": ["TableauVerif.Props.C06", "TableauVerif.Props.C06Range"],
         "oracles": ["c06.rt", "c06.cell"],
         "streams": [
             ("e2e.C06.formats", 3000, 100000),
@@ -239,7 +239,7 @@ PROPS = {
         ],
     },
     "C01": {
-        "lean_modules": ["TableauVerif.Props.C01", "TableauVerif.Props.C01List", "TableauVerif.Props.C01Sheet", "TableauVerif.Props.C01Grid", "TableauVerif.Props.C01Csv"],
+        "lean_modules": ["TableauVerif.Props.C01", "TableauVerif.Props.C01List", "TableauVerif.Props.C01Sheet", "TableauVerif.Props.C01Grid", "TableauVerif.Props.C01Csv", "TableauVerif.Props.C09Incell"],
         "oracles": ["c01.rt", "imp.grid", "c03.parse"],
         "streams": [
             ("e2e.C01.roundtrip", 8000, 300000),
@@ -295,7 +295,7 @@ PROPS = {
         ],
     },
     "C20": {
-        "lean_modules": ["TableauVerif.Props.C20", "TableauVerif.Props.C20Civil", "TableauVerif.Props.C20Dur", "TableauVerif.Props.C20Days"],
+        "lean_modules": ["TableauVerif.Props.C20", "TableauVerif.Props.C20Civil", "TableauVerif.Props.C20Dur", "TableauVerif.Props.C20Days", "TableauVerif.Props.C06Range"],
         "oracles": ["c20.ts", "c20.gen", "c20.dur", "c20.emitz"],
         "streams": [
             ("corr.xproto.parseTime", 20000, 600000),
@@ -311,7 +311,7 @@ PROPS = {
         ],
     },
     "C12": {
-        "lean_modules": ["TableauVerif.Props.C12", "TableauVerif.Props.C12Contig"],
+        "lean_modules": ["TableauVerif.Props.C12", "TableauVerif.Props.C12Contig", "TableauVerif.Props.C12Seq"],
         "oracles": ["c12.range", "c12.contig", "c01.rt", "c12.refer", "doc.parse", "c12.seq"],
         "streams": [
             ("corr.fieldprop.range", 12000, 400000),
@@ -383,7 +383,7 @@ PROPS = {
         ],
     },
     "C14": {
-        "lean_modules": ["TableauVerif.Props.C14", "TableauVerif.Props.C14Pins"],
+        "lean_modules": ["TableauVerif.Props.C14", "TableauVerif.Props.C14Pins", "TableauVerif.Props.C14Lines"],
         "oracles": ["c14.merge", "c14.fieldsep", "c14.fieldsubsep", "c14.e2e", "c12.refer"],
         "streams": [
             ("corr.parseroptions.mergeHeader", 3000, 200000),
